@@ -165,10 +165,26 @@ func (vm *VM) RunAny(v interface{}, fn func(*TagExpr, error) error) error {
 
 // check type: struct{F map[T1]T2}
 func checkStructMapAddr(v reflect.Value) error {
-	if !v.IsValid() || v.CanAddr() || v.NumField() != 1 || v.Field(0).Kind() != reflect.Map {
+	if !v.IsValid() || v.CanAddr() || !isPointerShaped(v.Type()) {
 		return nil
 	}
 	return unsupportedCannotAddr
+}
+
+// isPointerShaped reports whether a value of type t is stored directly in an
+// interface word (a map, pointer, chan, func, or a struct / one-element array
+// wrapping exactly one such value): a non-addressable value of such a type has
+// no memory of its own whose address could be taken.
+func isPointerShaped(t reflect.Type) bool {
+	switch t.Kind() {
+	case reflect.Map, reflect.Ptr, reflect.Chan, reflect.Func, reflect.UnsafePointer:
+		return true
+	case reflect.Struct:
+		return t.NumField() == 1 && isPointerShaped(t.Field(0).Type)
+	case reflect.Array:
+		return t.Len() == 1 && isPointerShaped(t.Elem())
+	}
+	return false
 }
 
 func (vm *VM) subRunAll(omitNil bool, tePath string, value reflect.Value, fn func(*TagExpr, error) error) error {
